@@ -5,6 +5,7 @@ open MtailVerif.C24
 #print axioms bad_literal_regex_rejected
 #print axioms undeclared_name_rejected
 #print axioms redeclared_name_rejected
+#print axioms unused_declaration_rejected
 #print axioms undeclared_identifier_reported
 #print axioms undefined_capref_reported
 #print axioms undefined_decorator_reported
